@@ -48,3 +48,28 @@ Fixpoint descend (kids : Z -> list Z) (fuel : nat) (path : list Z) (n : Z) : opt
 Definition MAX_RANGE : Z := 65536.
 Definition cmap_range_steps (start end_ : Z) : Z := Z.max 0 (Z.min (end_ - start + 1) MAX_RANGE).
 Definition width_range_steps (c1 c2 : Z) : Z := Z.max 0 (Z.min c2 65535 - Z.max c1 0 + 1).
+
+(* ---------- globally guarded chains: PDFDocument.read_xref_from --------------------------------------------------- *)
+(* [links off] = the offsets the section at [off] sends the reader to, in the order they are followed (/XRefStm, then
+   /Prev).  A section already read is not read again.  Returns (visited set, sections read in order); None = recursion
+   deeper than the fuel. *)
+Fixpoint xread (links : Z -> list Z) (fuel : nat) (visited : list Z) (start : Z) : option (list Z * list Z) :=
+  if mem start visited then Some (visited, [])
+  else match fuel with
+       | O => None
+       | S f =>
+           match (fix go (ks : list Z) (vis : list Z) : option (list Z * list Z) :=
+                    match ks with
+                    | [] => Some (vis, [])
+                    | k :: r => match xread links f vis k with
+                                | Some (vis1, o1) => match go r vis1 with
+                                                     | Some (vis2, o2) => Some (vis2, o1 ++ o2)
+                                                     | None => None
+                                                     end
+                                | None => None
+                                end
+                    end) (links start) (start :: visited) with
+           | Some (vis', o) => Some (vis', start :: o)
+           | None => None
+           end
+       end.
